@@ -1186,10 +1186,10 @@ def fault_points(workload, cuts, rng=None):
                 if cuts == "all":
                     offs = range(n)
                 else:
-                    # header boundaries, first body bytes, middle, last bytes + two seeded offsets
-                    pick = [0, 1, 4, 5, 6, n // 2, n - 2, n - 1]
+                    # header boundaries, first body byte, middle, last byte + one seeded offset
+                    pick = [0, 4, 5, n // 2, n - 1]
                     if rng is not None:
-                        pick += [rng.below(n), rng.below(n)]
+                        pick += [rng.below(n)]
                     offs = sorted(set(o for o in pick if 0 <= o < n))
                 for at in offs:
                     faults.append(dict(k=e["call"], how="cut", at=at))
@@ -1221,7 +1221,7 @@ def correspondence(ctx):
     c = Corr()
     c.rule = ("%d workloads x (fault-free run + a fault at every individual transport call of that run, two flavours: I/O "
               "error at this end / the peer vanishing; + poll() raising OSError at every base-level poll of serve_all) + cuts at byte offsets inside the packet at every header read "
-              "(quick: header boundaries, first/middle/last body bytes + 2 seeded offsets of every packet; thorough: every "
+              "(quick: header boundaries, first/middle/last body byte + 1 seeded offset of every packet; thorough: every "
               "offset of every packet). "
               "Compared per side, after the workload and after the after-phase (wait for everything pending, two new "
               "requests, close twice): closed, hook runs, tables empty (when closed), outcome of every request, what "
